@@ -10,12 +10,38 @@
 (* invariants on every case.                                                            *)
 EXTENDS GlomAuto, Json
 
-CONSTANTS Kinds,       \* constructor families enabled, subset of AllKinds
-          LeafSet,     \* "tiny" | "small" | "full" | "arg"
-          CoalSet,     \* "basic" | "mid" | "full"  variants of Coalesce's options
-          MaxDepth, MaxNodes, MaxWidth, MaxStack,
-          Roots,       \* indices into RootTab
+CONSTANTS Families,    \* names of the universes to explore (DOMAIN Conf)
           Mutant       \* "none" or the name of a wrong mechanism variant (GlomAuto env.mut)
+
+\* one universe = constructor families x leaf set x Coalesce option set x bounds x roots
+\* (kinds and roots are sequences so that the record can live in a dumped state variable)
+U(kinds, leaf, coal, depth, nodes, width, stk, roots) ==
+  [kinds |-> kinds, leaf |-> leaf, coal |-> coal, depth |-> depth, nodes |-> nodes, width |-> width,
+   stack |-> stk, roots |-> roots]
+Containers == <<"dict", "odict", "dictk", "list", "tuple", "pipe", "spec", "coalesce">>
+Conf == [
+  \* ---- quick tier ----
+  q_nest      |-> U(<<"dict", "list", "tuple", "coalesce">>, "tiny", "basic", 3, 4, 2, 3, <<1>>),
+  q_pairs     |-> U(Containers, "small", "basic", 2, 3, 2, 2, <<1, 2, 3>>),
+  q_leaves    |-> U(Containers, "full", "basic", 2, 2, 1, 1, <<1, 2, 3, 4, 5, 6, 7>>),
+  q_coal1     |-> U(<<"coalesce">>, "small", "full", 2, 2, 1, 1, <<1, 3>>),
+  q_coal2     |-> U(<<"coalesce">>, "small", "mid", 2, 3, 2, 2, <<1>>),
+  q_calls     |-> U(<<"call", "invoke">>, "argsmall", "basic", 2, 3, 2, 2, <<1>>),
+  q_modes     |-> U(<<"ref", "fill", "auto", "dict", "list", "tuple", "coalesce">>, "small", "basic", 3, 3, 2, 2, <<1, 2>>),
+  \* ---- thorough tier ----
+  t_nest      |-> U(Containers, "small", "basic", 3, 4, 2, 3, <<1, 2, 3>>),
+  t_nest5     |-> U(<<"dict", "list", "tuple">>, "tiny", "basic", 3, 5, 2, 3, <<1>>),
+  t_leaves    |-> U(Containers, "full", "basic", 2, 3, 2, 2, <<1, 2, 3, 4, 5, 6, 7>>),
+  t_coal      |-> U(<<"coalesce">>, "small", "full", 2, 3, 2, 2, <<1, 3>>),
+  t_calls     |-> U(<<"call", "invoke">>, "arg", "basic", 2, 3, 2, 2, <<1, 3>>),
+  t_callnest  |-> U(<<"call", "invoke", "tuple", "coalesce", "dict">>, "argsmall", "basic", 3, 3, 2, 2, <<1, 3>>),
+  t_modes     |-> U(<<"ref", "fill", "auto", "dict", "list", "tuple", "pipe", "coalesce">>, "tiny", "basic", 3, 4, 2, 2, <<1, 2>>),
+  \* ---- small universes on which the spec mutants must be caught ----
+  m_chain     |-> U(<<"tuple", "dict">>, "tiny", "basic", 2, 3, 2, 2, <<1>>),
+  m_coal      |-> U(<<"coalesce">>, "tiny", "basic", 2, 3, 2, 2, <<1>>),
+  m_dict      |-> U(<<"dict">>, "tiny", "basic", 2, 3, 2, 2, <<1>>),
+  m_invoke    |-> U(<<"invoke">>, "argsmall", "basic", 2, 3, 2, 2, <<1>>),
+  probe       |-> U(<<>>, "tiny", "basic", 1, 0, 0, 0, <<1>>) ]
 
 AllKinds == {"dict", "odict", "dictk", "list", "tuple", "pipe", "spec", "coalesce", "call", "invoke",
              "ref", "fill", "auto"}
@@ -58,8 +84,12 @@ ArgLeaves == {P("a", <<"a">>), TT(<<Step("[", S("a"))>>), TT(<<Step("[", S("b"))
               F("inc"), V(VInt(5)), K(VInt(3)), K(VNone),
               Wrap("spec", F("inc")), Wrap("spec", F("ret_SKIP")), Wrap("spec", F("raise_KeyError")),
               Wrap("spec", P("b", <<"b">>)), Wrap("spec", P("n", <<"n">>))}
-Leaves == (CASE LeafSet = "tiny" -> TinyLeaves [] LeafSet = "small" -> SmallLeaves [] LeafSet = "full" -> FullLeaves [] OTHER -> ArgLeaves)
-          \cup (IF "ref" \in Kinds THEN {RefUse} ELSE {})
+ArgSmallLeaves == {P("a", <<"a">>), TT(<<Step("[", S("a"))>>), TT(<<Step("[", S("x"))>>),
+                   Wrap("spec", F("inc")), Wrap("spec", F("raise_KeyError")), Wrap("spec", P("b", <<"b">>))}
+ArgTinyLeaves == {TT(<<Step("[", S("a"))>>), Wrap("spec", F("inc")), Wrap("spec", F("raise_KeyError"))}
+LeavesOf(c) == (CASE c.leaf = "tiny" -> TinyLeaves [] c.leaf = "argtiny" -> ArgTinyLeaves [] c.leaf = "small" -> SmallLeaves [] c.leaf = "full" -> FullLeaves
+                  [] c.leaf = "argsmall" -> ArgSmallLeaves [] OTHER -> ArgLeaves)
+               \cup (IF \E i \in 1..Len(c.kinds) : c.kinds[i] = "ref" THEN {RefUse} ELSE {})
 
 \* Coalesce options
 DNone == [kind |-> "none"]
@@ -85,11 +115,11 @@ MidOpts == {Opt(d, sk, ex) :
                d \in {DNone, DArg(K(SKIP)), DArg(TT(<<Step("[", S("a"))>>)), DFac("echo")},
                sk \in {SkNone, SkVal(VBool(TRUE)), SkTup(<<VInt(0), VNone>>), SkPred("is_none"), SkPred("raise_GlomError")},
                ex \in {GE, <<"KeyError">>, <<"ValueError", "TypeError">>, <<>>}}
-CoalOpts == CASE CoalSet = "full" -> FullOpts [] CoalSet = "mid" -> MidOpts [] OTHER -> BasicOpts
+CoalOptsOf(c) == CASE c.coal = "full" -> FullOpts [] c.coal = "mid" -> MidOpts [] OTHER -> BasicOpts
 
 \* Call: func position
-CallFuncs == {F("echo"), F("pair"), F("inc"), TT(<<Step("[", S("f"))>>), TT(<<Step("[", S("a"))>>),
-              Wrap("spec", P("f", <<"f">>)), Wrap("spec", F("ret_SKIP"))}
+CallFuncs == {F("echo"), F("pair"), TT(<<Step("[", S("f"))>>), TT(<<Step("[", S("a"))>>),
+              Wrap("spec", P("f", <<"f">>))}
 KwPatterns == {<<>>, <<"x">>, <<"y">>}
 EmptyDict == Dict(FALSE, <<>>, <<>>)
 KwDict(names, kids) == Dict(FALSE, [i \in 1..Len(names) |-> Lit(S(names[i]))], kids)
@@ -131,8 +161,18 @@ KeySpecs == {TT(<<Step("[", S("k"))>>), Wrap("spec", P("k", <<"k">>)), Wrap("spe
 LitKeyNames == <<S("p"), S("q"), S("r")>>
 
 \* ---- the stack machine ----------------------------------------------------------------------
-VARIABLES stack, nodes, phase, root, pred
-vars == <<stack, nodes, phase, root, pred>>
+VARIABLES fam,      \* name of the universe this behaviour belongs to
+          conf,     \* = Conf[fam] (kept in the state so that the bounds are cheap to read)
+          stack, nodes, phase, root, pred
+vars == <<fam, conf, stack, nodes, phase, root, pred>>
+KindOn(k) == \E i \in 1..Len(conf.kinds) : conf.kinds[i] = k
+Leaves == LeavesOf(conf)
+CoalOpts == CoalOptsOf(conf)
+MaxDepth == conf.depth
+MaxNodes == conf.nodes
+MaxWidth == conf.width
+MaxStack == conf.stack
+Roots == {conf.roots[i] : i \in 1..Len(conf.roots)}
 
 El(s, d, open) == [s |-> s, d |-> d, open |-> open]
 Top(n)   == SubSeq(stack, Len(stack) - n + 1, Len(stack))
@@ -148,47 +188,47 @@ Made(n, s, closes) ==       \* replace the topmost n trees by the composite s
   /\ MaxD(Top(n)) < MaxDepth
   /\ stack' = Append(Below(n), El(s, MaxD(Top(n)) + 1, AnyOpen(Top(n)) /\ ~closes))
   /\ nodes' = nodes + 1
-  /\ UNCHANGED <<phase, root, pred>>
+  /\ UNCHANGED <<fam, conf, phase, root, pred>>
 
 Push ==
   /\ phase = 0 /\ Len(stack) < MaxStack /\ nodes < MaxNodes
   /\ \E l \in Leaves :
        /\ stack' = Append(stack, El(l, 1, l.op = "ref"))
-       /\ nodes' = nodes + (IF l.op = "spec" THEN 2 ELSE 1)
-  /\ UNCHANGED <<phase, root, pred>>
+       /\ nodes' = nodes + 1
+  /\ UNCHANGED <<fam, conf, phase, root, pred>>
 
 Compose ==
   /\ phase = 0
   /\ \E n \in 0..MaxWidth :
        /\ Len(stack) >= n
        /\ LET kids == KidsOf(Top(n)) IN
-          \/ /\ "dict" \in Kinds /\ n >= 1
+          \/ /\ KindOn("dict") /\ n >= 1
              /\ Made(n, Dict(FALSE, [i \in 1..n |-> Lit(LitKeyNames[i])], kids), FALSE)
-          \/ /\ "odict" \in Kinds /\ n >= 1
+          \/ /\ KindOn("odict") /\ n >= 1
              /\ Made(n, Dict(TRUE, [i \in 1..n |-> Lit(LitKeyNames[i])], kids), FALSE)
-          \/ /\ "dictk" \in Kinds /\ n >= 1
+          \/ /\ KindOn("dictk") /\ n >= 1
              /\ \E ks \in KeySpecs : \E pos \in {1, n} :
                   Made(n, Dict(FALSE, [i \in 1..n |-> IF i = pos THEN KeyS(ks) ELSE Lit(LitKeyNames[i])], kids), FALSE)
-          \/ "list" \in Kinds /\ n = 1 /\ Made(n, [op |-> "list", kids |-> kids], FALSE)
-          \/ "tuple" \in Kinds /\ ChainOk(kids) /\ Made(n, Tup(kids), FALSE)
-          \/ "pipe" \in Kinds /\ n >= 1 /\ ChainOk(kids) /\ Made(n, [op |-> "pipe", kids |-> kids], FALSE)
-          \/ "spec" \in Kinds /\ n = 1 /\ Made(n, Wrap("spec", kids[1]), FALSE)
-          \/ "fill" \in Kinds /\ n = 1 /\ Made(n, Wrap("fill", kids[1]), FALSE)
-          \/ "auto" \in Kinds /\ n = 1 /\ Made(n, Wrap("auto", kids[1]), FALSE)
-          \/ /\ "ref" \in Kinds /\ n = 1 /\ AnyOpen(Top(n))
+          \/ KindOn("list") /\ n = 1 /\ Made(n, [op |-> "list", kids |-> kids], FALSE)
+          \/ KindOn("tuple") /\ ChainOk(kids) /\ Made(n, Tup(kids), FALSE)
+          \/ KindOn("pipe") /\ n >= 1 /\ ChainOk(kids) /\ Made(n, [op |-> "pipe", kids |-> kids], FALSE)
+          \/ KindOn("spec") /\ n = 1 /\ Made(n, Wrap("spec", kids[1]), FALSE)
+          \/ KindOn("fill") /\ n = 1 /\ Made(n, Wrap("fill", kids[1]), FALSE)
+          \/ KindOn("auto") /\ n = 1 /\ Made(n, Wrap("auto", kids[1]), FALSE)
+          \/ /\ KindOn("ref") /\ n = 1 /\ AnyOpen(Top(n))
              /\ Made(n, [op |-> "ref", name |-> "r", def |-> TRUE, kids |-> kids], TRUE)
-          \/ /\ "coalesce" \in Kinds /\ n >= 1
+          \/ /\ KindOn("coalesce") /\ n >= 1
              /\ \E o \in CoalOpts :
                   Made(n, [op |-> "coalesce", kids |-> kids, dflt |-> o.dflt, skip |-> o.skip, skipexc |-> o.skipexc], FALSE)
-          \/ /\ "call" \in Kinds
+          \/ /\ KindOn("call")
              /\ \E f \in CallFuncs : \E kwn \in KwPatterns :
                   /\ Len(kwn) <= n
                   /\ Made(n, [op |-> "call", func |-> f, args |-> Tup(SubSeq(kids, 1, n - Len(kwn))),
                               kwargs |-> KwDict(kwn, SubSeq(kids, n - Len(kwn) + 1, n))], FALSE)
-          \/ /\ "call" \in Kinds /\ n = 1       \* args / kwargs given by a spec instead of a literal
+          \/ /\ KindOn("call") /\ n = 1       \* args / kwargs given by a spec instead of a literal
              /\ \/ Made(n, [op |-> "call", func |-> F("echo"), args |-> kids[1], kwargs |-> EmptyDict], FALSE)
                 \/ Made(n, [op |-> "call", func |-> F("echo"), args |-> Tup(<<>>), kwargs |-> kids[1]], FALSE)
-          \/ /\ "invoke" \in Kinds /\ n <= 2
+          \/ /\ KindOn("invoke") /\ n <= 2
              /\ \E iv \in InvTemplates(kids) : Made(n, iv, FALSE)
 
 Evaluate ==
@@ -197,15 +237,18 @@ Evaluate ==
        /\ root' = RootTab[r]
        /\ pred' = Outcome(Run(TargetHeap, RootTab[r], stack[1].s, Mutant), Len(TargetHeap))
   /\ phase' = 1
-  /\ UNCHANGED <<stack, nodes>>
+  /\ UNCHANGED <<fam, conf, stack, nodes>>
 
-Init == /\ stack = <<>> /\ nodes = 0 /\ phase = 0 /\ root = VNone
+Init == /\ fam \in Families
+        /\ conf = Conf[fam]
+        /\ stack = <<>> /\ nodes = 0 /\ phase = 0 /\ root = VNone
         /\ pred = [skip |-> "init"]
-        /\ PrintT(ToJson([targetheap |-> TargetHeap]))
+        /\ (fam = CHOOSE f \in Families : TRUE) => PrintT(ToJson([targetheap |-> TargetHeap]))
 Next == Push \/ Compose \/ Evaluate
 
 \* ---- the laws, on every case ------------------------------------------------------------------
 TheSpec == stack[1].s
-Laws == phase = 1 => Lawful(St0(TargetHeap), Env0(Fuel, Mutant), root, TheSpec)
-Once == phase = 1 => OnceLaw(TargetHeap, root, TheSpec, Mutant)
+\* (cases the model places outside its fragment carry no prediction and are not judged)
+Laws == phase = 1 /\ pred.skip = "" => Lawful(St0(TargetHeap), Env0(Fuel, Mutant), root, TheSpec)
+Once == phase = 1 /\ pred.skip = "" => OnceLaw(TargetHeap, root, TheSpec, Mutant)
 ====================================================================================
